@@ -672,27 +672,55 @@ func (e *env) run() {
 	// Injected failures that were not consumed yet (a state write that is to
 	// fail n more times keeps popped blocks from being written back) are
 	// withdrawn first: the clause is about capacity lost for good.
-	s.State.SetFail(0, nil)
-	s.DataSync.SetFail(0, nil)
-	s.M.Dir.ClearFaults()
 	s.M.Blocks.ClearFaults()
 	if cfg.Persistent {
+		s.State.SetFail(0, nil)
+		s.DataSync.SetFail(0, nil)
+		s.M.Dir.ClearFaults()
 		e.drain()
 	}
 	fails := 0
+	var failDiag []string
 	for k := 0; k < cfg.BlockCount()+2; k++ {
 		data := e.newData(block / 2)
 		o := &objT{d: gen.SHA256Digest(e.inst, data), data: data}
-		if err := e.put(o, "ok"); err != nil {
+		err := e.put(o, "ok")
+		if err != nil && cfg.Persistent {
+			// One call can need more regions than there are spare blocks (a
+			// rotation inside the call pops a block whose region only returns
+			// once the state was rewritten): refused now, possible after the
+			// syncer ran. Permanent loss = still refused then.
+			e.drain()
+			e.w.Count("final_fill_retries_after_drain", 1)
+			data = e.newData(block / 2)
+			o = &objT{d: gen.SHA256Digest(e.inst, data), data: data}
+			err = e.put(o, "ok")
+		}
+		if err != nil {
 			fails++
 			e.c.Logf("final fill %d failed: %v", k, err)
+			s.Lock.Lock()
+			free, _ := local.VerifFreeOffsetsSectors(s.RealAlloc)
+			diag := fmt.Sprintf("fill %d: %v; free regions %v; heldRefs %v; held %d", k, err, free, e.heldRefs, len(e.held))
+			if s.PBL != nil {
+				snap := s.PBL.VerifSnapshot()
+				diag += fmt.Sprintf("; listed %d awaiting %d releasing %d; state failures pending %d; gate waiting %d; timers %d", len(snap.Blocks), len(snap.BlocksToRelease), snap.BlocksReleasing, s.State.PendingFailures(), s.Gate.Waiting("state.write"), s.M.Clock.Pending())
+			}
+			for _, bw := range s.Alloc.Blocks() {
+				info, _ := local.VerifGetBlockInfo(bw.Inner)
+				if info.UseCount != 0 {
+					diag += fmt.Sprintf("; block %d@%d use=%d released=%d", bw.ID, bw.Offset, info.UseCount, bw.Released())
+				}
+			}
+			s.Lock.Unlock()
+			failDiag = append(failDiag, diag)
 		}
 		if cfg.Persistent {
 			e.drain()
 		}
 	}
 	if fails > 0 {
-		e.c.Violation("blockAllocator:capacity-permanently-lost", "with no reader or writer outstanding, %d of %d uploads of half a block failed at the end of the history", fails, cfg.BlockCount()+2)
+		e.c.Violation("blockAllocator:capacity-permanently-lost", "with no reader or writer outstanding, %d of %d uploads of half a block failed at the end of the history: %v", fails, cfg.BlockCount()+2, failDiag)
 	}
 	e.quiescent("after final fill")
 	if e.nontriv {
